@@ -207,7 +207,7 @@ func (k *c15Consumer) run(r io.Reader) error {
 
 func c15Fanout(c *Ctx) error {
 	r := c.Rng.Fork()
-	n := c.N(40, 600)
+	n := c.N(60, 600)
 	for i := 0; i < n; i++ {
 		cr := r.Fork()
 		size := []int{0, 1, 2, 5, 17, 64, 200}[cr.Intn(7)]
@@ -324,8 +324,8 @@ func c15DiffOnce(p *c15Pair, comp lib.Compression, procs int, rng *lib.Rng) (res
 
 func c15DiffCases(c *Ctx) error {
 	r := c.Rng.Fork()
-	n := c.N(6, 60)
-	runs := c.N(4, 12)
+	n := c.N(10, 120)
+	runs := c.N(4, 16)
 	for i := 0; i < n; i++ {
 		cr := r.Fork()
 		opts := lib.PairOpts{MaxFiles: 4, MaxSize: 3 * lib.BS, Links: true}
@@ -499,8 +499,8 @@ func c15OptimizeCorpus(c *Ctx) error {
 
 func c15OptimizeCases(c *Ctx) error {
 	r := c.Rng.Fork()
-	n := c.N(5, 32)
-	runs := c.N(4, 8)
+	n := c.N(8, 48)
+	runs := c.N(4, 12)
 	for i := 0; i < n; i++ {
 		cr := r.Fork()
 		old, nw, rel := c15GenOptPair(cr, i%5 == 4)
@@ -629,8 +629,8 @@ func c15GenBsdiffPair(r *lib.Rng, class string, thorough bool) (old, nw []byte) 
 
 func c15Bsdiff(c *Ctx) error {
 	r := c.Rng.Fork()
-	n := c.N(6, 40)
-	runs := c.N(3, 6)
+	n := c.N(9, 60)
+	runs := c.N(3, 8)
 	for i := 0; i < n; i++ {
 		cr := r.Fork()
 		class := []string{"dense", "edits", "manyblocks", "edits", "dense", "edits"}[i%6]
@@ -801,7 +801,7 @@ func c15RaceCases(c *Ctx) error {
 		return err
 	}
 	r := c.Rng.Fork()
-	n := c.N(3, 12)
+	n := c.N(3, 18)
 	for i := 0; i < n; i++ {
 		p := c15RaceParams{Seed: r.U64(), Kind: []string{"diff", "optimize", "bsdiff"}[i%3], I: i/3 + int(c.Seed)}
 		result := filepath.Join(c.Tmp, "c15race.jsonl")
